@@ -1,5 +1,5 @@
 """C13 - runtime validation of replies. Proof: coq/Props/C13.v. Tie: trace validation with one malformed reply injected per case (kind x step index x simulator)."""
-from .. import common, sched_check, monitors
+from .. import common, sched_check, monitors, gen
 
 KINDS = ['impl_err:outtime', 'impl_err:reply', 'model_err:outtime', 'model_err:reply', 'outcome']
 
@@ -18,6 +18,12 @@ def features(case, run, val):
 
 
 
+def case_gen(rng, k):
+    case = gen.gen_case(rng, groups=True, malformed=True)
+    if k % 3 == 2: case['debug'] = True        # World(debug=True): the scheduler's step/get_outputs are wrapped by mosaik._debug
+    return case
+
+
 def run(out, info, tier, seed):
     out.trusted_base = common.COMMON_TRUSTED + [
         'modelled by hand: sim_process/next_step_settled/wait_for_dependencies/step/get_outputs/notify_dependencies/advance_progress/'
@@ -25,7 +31,7 @@ def run(out, info, tier, seed):
         'assumed of asyncio: a task runs atomically between suspensions; futures wake their waiters (wake-up liveness is checked by the quiescence test)',
         'theorem premise static_ok (shape facts; the ancestors table dominates every trigger path) is checked per scenario by comparing the model-built tables with the implementation, not yet discharged by a closure theorem']
     out.assumptions = ['simulators are an oracle: any reply sequence (event list); delays that are compared have equal shape (convex group scenarios)']
-    sched_check.sched_property(out, info, tier, seed, 'C13', KINDS, monitors.P_C13, gen_opts={'groups': True, 'malformed': True},
+    sched_check.sched_property(out, info, tier, seed, 'C13', KINDS, monitors.P_C13, gen_opts={'groups': True, 'malformed': True}, case_gen=case_gen,
                                ncases=(110, 1500), variants=[(True, True), (False, False)], nontrivial=nontrivial, features=features,
                                known_match=None, hyp=None,
                                extra_obligations=[('Sched.Inv (invariant preserved by every event)', 'Sched/Inv'),
